@@ -283,6 +283,26 @@ def r15_7(ctx, fx):
         ctx.ob("R15.7", "sufficient_records/adds-known_records-to-the-found-count", ok, site=sf.site(sf.entry), cfg=fx.cfg)
 
 
+def r15_8(ctx, fx):
+    """terminal result of a provider lookup: the providers known locally before the lookup are part of its result (found_providers()
+    reports them), so the lookup fails only if it found none AND knew none: the QueryFailed of GetProvidersContext::next_action lies
+    behind the true edge of `known_providers.is_empty()` as well (sibling: GetRecordContext uses known_records the same way)."""
+    fn = ctx.fn(fx, "protocol::libp2p::kademlia::query::get_providers::GetProvidersContext::next_action", "R15.8")
+    if fn is None:
+        return
+    failed = [n for n, _ in fn.aggregates(r"QueryAction$", "QueryFailed")]
+    ctx.anchor("R15.8", "GetProvidersContext::next_action: QueryFailed", len(failed), 1, cfg=fx.cfg)
+    edges = {"found_providers": set(), "known_providers": set()}
+    for c in fn.calls(r"::is_empty$"):
+        for nm in edges:
+            if nm in fn.recv(c):
+                for sw, t, f in fn.bool_tests(c.dest[0]):
+                    edges[nm].add((sw, t))
+    for nm, es in edges.items():
+        ok = bool(es) and all(n not in fn.reach([fn.entry], cut=es) for n in failed)
+        ctx.ob("R15.8", "GetProvidersContext::next_action/QueryFailed-only-if-%s-is-empty" % nm, ok, site=fn.site(failed[0]) if failed else fn.site(fn.entry), cfg=fx.cfg)
+
+
 def run(ctx):
     fx = ctx.facts("default")
     r15_4(ctx, fx)
@@ -293,3 +313,4 @@ def run(ctx):
     r15_5b(ctx, fx)
     r15_6(ctx, fx)
     r15_7(ctx, fx)
+    r15_8(ctx, fx)
